@@ -387,8 +387,12 @@ def state_oracle(hist: tuple) -> Tuple[Optional[Dict[str, Any]], int]:
             r.apply(ev)
         zc, model, now = r.zc, r.model, w.now_ms
         names = query_names(model)
+        # (ANY on a host name is outside the statement - unless that name is an instance name as well, which is what a
+        # description without a host name gives: its SRV and TXT records are owed)
+        instance_names = {s.name.lower() for s in model.values()} if isinstance(model, dict) else set()
         singles = [(nm, t) for nm in names for t in QTYPES
-                   if not (t == 255 and nm.lower() in {s.server.lower() for s in TEMPLATES.values()} | {"moved.local."})]
+                   if not (t == 255 and nm.lower() not in instance_names and
+                           nm.lower() in {s.server.lower() for s in TEMPLATES.values()} | {"moved.local."})]
         problem = None
         for q in singles:
             n += 1
